@@ -4,7 +4,7 @@ from __future__ import annotations
 import numpy as np
 
 from checks import c20 as base
-from checks.c20 import attempt, brief, digest, eq, known_active, twin_memo
+from checks.c20 import attempt, brief, digest, eq, twin_memo
 from simkit.run import RunCtx, Violation
 
 M: dict = {}
@@ -12,10 +12,15 @@ VARIANTS = [{"step": 0.5, "integration_fraction": 0.2, "displacement": 1e-6, "me
             {"step": 0.34, "integration_fraction": 0.2, "displacement": 1e-6, "method": "fixed", "order": 4, "dt": 1e-2}]
 KINDS = [(True, "positive"), (False, "positive"), (True, "negative")]
 
+# m_* act on the run's manifold A; b_* on a second manifold B of the same orbit (the branch of opposite stability),
+# created at its first use: two objects made from one parent must not share results
 ALPHABET = [("o_set_period", "x0.9"), ("o_set_period", "x1.1"), ("o_set_period", "orig"), ("o_correct",),
-            ("m_compute", 0), ("m_compute", 1), ("m_trajectories",), ("m_refetch",), ("o_read", "monodromy"), ("m_save_load",)]
-WEIGHTS = [1.0, 0.6, 0.8, 0.8, 2.0, 1.5, 1.5, 0.5, 0.4, 0.5]
-REDUCED = [("o_set_period", "x0.9"), ("o_correct",), ("m_compute", 0), ("m_compute", 1), ("m_trajectories",), ("m_refetch",)]
+            ("m_compute", 0), ("m_compute", 1), ("m_trajectories",), ("m_refetch",), ("o_read", "monodromy"), ("m_save_load",),
+            ("b_compute", 0), ("b_compute", 1), ("b_trajectories",)]
+WEIGHTS = [1.0, 0.6, 0.8, 0.8, 2.0, 1.5, 1.5, 0.5, 0.4, 0.5, 1.2, 0.6, 0.6]
+REDUCED = [("o_set_period", "x0.9"), ("o_correct",), ("m_compute", 0), ("m_compute", 1), ("m_trajectories",), ("m_refetch",), ("b_compute", 0)]
+CORE3 = [("m_compute", 0), ("m_compute", 1), ("b_compute", 0), ("b_trajectories",)]
+SIBLING = {(True, "positive"): (False, "positive"), (False, "positive"): (True, "positive"), (True, "negative"): (False, "negative")}
 
 
 def warmup(U, tier):
@@ -61,17 +66,21 @@ def run_history(ctx: RunCtx, U) -> None:
     orbit = _orbit(U, "sys_real", x, T)
     man = orbit.manifold(stable=stable, direction=direction)
     last = None                 # (variant, x digest, T) of the last compute on `man`
+    other = {"man": None, "last": None}     # the sibling manifold B and its last compute
+    kind_a, kind_b = (stable, direction), SIBLING[(stable, direction)]
     hist: list = []
     mutated = False
     max_len = 8 if ctx.tier == "quick" else 16
     log.add("objects", stable, direction)
 
-    def fresh_result(vi, x, T):
+    def fresh_result(vi, x, T, kind=None):
+        st_, dir_ = kind or kind_a
+
         def f():
             tw = _orbit(U, "sys_twin", x, T)
-            tm = tw.manifold(stable=stable, direction=direction)
+            tm = tw.manifold(stable=st_, direction=dir_)
             return attempt(lambda: (tm.compute(show_progress=False, **VARIANTS[vi]), _result(tm))[1])
-        return twin_memo(("manifold", stable, direction, vi, x, T), f)
+        return twin_memo(("manifold", st_, dir_, vi, x, T), f)
 
     while len(hist) < max_len:
         w = [0.08 if hist else 0.0] + WEIGHTS
@@ -81,6 +90,16 @@ def run_history(ctx: RunCtx, U) -> None:
         op = ALPHABET[kk - 1]
         hist.append(tuple(op))
         k = op[0]
+        on_b = k.startswith("b_")
+        if on_b:
+            # the same operations on the sibling: swap the handles in, run the m_ branch, swap back
+            if other["man"] is None:
+                other["man"] = orbit.manifold(stable=kind_b[0], direction=kind_b[1])
+            man, other["man"] = other["man"], man
+            last, other["last"] = other["last"], last
+            kind_a, kind_b = kind_b, kind_a
+            k = "m_" + k[2:]
+            ctx.probe("sibling_manifold_ops")
         if mutated and k.startswith("m_"):
             ctx.nontrivial = True
             ctx.probe("reads_after_mutation")
@@ -157,23 +176,23 @@ def run_history(ctx: RunCtx, U) -> None:
             if r_out.failed or r_out.value is None:
                 ctx.probe("manifold_result_unset")
                 log.add("op", op, "unset")
-                continue
-            if last is None:
+            elif last is None:
                 raise Violation("C20/manifold/stored-result", f"manifold.trajectories holds {r_out.value['n']} trajectories although this manifold object has not computed anything | history: {hist}")
-            vi, xl, Tl = last
-            # two-sided: the stored result must be the last compute's result at the orbit's CURRENT state
-            t_out = fresh_result(vi, x, T)
-            if t_out.failed or not teq(r_out.value, t_out.value):
-                same_as_then = (not eq(xl, x) or not eq(Tl, T)) and teq(r_out.value, fresh_result(vi, xl, Tl).value)
-                if same_as_then and known_active("C20-K3-manifold-stored-result-survives-orbit-change"):
-                    ctx.note_known("C20-K3-manifold-stored-result-survives-orbit-change")
-                    continue
-                raise Violation("C20/manifold/stored-result", f"manifold.trajectories is not the result of the last compute (variant {vi}) for the orbit's current state "
-                                                              f"(period {T}; computed when the period was {Tl}) | history: {hist}")
-            log.add("op", op, "stored", digest(r_out.value))
-            ctx.probe("stored_result_compared")
+            else:
+                vi, xl, Tl = last
+                # two-sided: the stored result must be the last compute's result at the orbit's CURRENT state
+                t_out = fresh_result(vi, x, T)
+                if t_out.failed or not teq(r_out.value, t_out.value):
+                    raise Violation("C20/manifold/stored-result", f"manifold.trajectories is not the result of the last compute (variant {vi}) for the orbit's current state "
+                                                                  f"(period {T}; computed when the period was {Tl}) | history: {hist}")
+                log.add("op", op, "stored", digest(r_out.value))
+                ctx.probe("stored_result_compared")
+        if on_b:
+            man, other["man"] = other["man"], man
+            last, other["last"] = other["last"], last
+            kind_a, kind_b = kind_b, kind_a
     ctx.sig_parts = [stable, direction, hist]
-    ctx.sample = {"machine": "manifold", "objects": [f"halo orbit + {'stable' if stable else 'unstable'}/{direction} manifold"], "history": [list(h) for h in hist]}
+    ctx.sample = {"machine": "manifold", "objects": [f"halo orbit + {'stable' if stable else 'unstable'}/{direction} manifold" + (" + sibling branch" if other["man"] is not None else "")], "history": [list(h) for h in hist]}
     ctx.steps += len(hist)
 
 
@@ -185,7 +204,18 @@ def _twin_correct(U, x, T):
 
 def enumeration(max_len: int):
     import itertools
+    if max_len < 3:
+        yield from core_enumeration()
     idx = [ALPHABET.index(op) + 1 for op in REDUCED]
     for L in range(1, max_len + 1):
         for seq in itertools.product(idx, repeat=L):
             yield [2, 0] + list(seq) + [0]   # machine=manifold (2), kind 0
+
+
+def core_enumeration():
+    """All length-3 histories over the two-manifold core alphabet (compute on A, on its sibling B, read B)."""
+    import itertools
+    idx = [ALPHABET.index(op) + 1 for op in CORE3]
+    for seq in itertools.product(idx, repeat=3):
+        if any(ALPHABET[i - 1][0].startswith("b_") for i in seq):
+            yield [2, 0] + list(seq) + [0]
